@@ -563,6 +563,24 @@ func (c *Case) Dropping(drop []*openfgav1.TupleKey) *Case {
 	return &d
 }
 
+// Weakening returns a copy of the case in which the given tuples, where they currently count as
+// granting (condition value T), count as unknown (E): "this tuple may or may not be seen by a read".
+// Used by deviation models of known findings, never by the oracle itself.
+func (c *Case) Weakening(ts []*openfgav1.TupleKey) *Case {
+	d := *c
+	d.condVal = map[*openfgav1.TupleKey]Tri{}
+	for k, v := range c.condVal {
+		d.condVal[k] = v
+	}
+	for _, tk := range ts {
+		if d.condVal[tk] == T {
+			d.condVal[tk] = E
+			d.anyCondE = true
+		}
+	}
+	return &d
+}
+
 // AnyUnevaluable reports whether some valid tuple has a condition that cannot be evaluated under
 // the request context.
 func (c *Case) AnyUnevaluable() bool { return c.anyCondE }
